@@ -2,15 +2,15 @@
 import Iodata.Model.Conv
 namespace Iodata.Gen.Wf
 /-- wfn.py: `get_mocoeff_scales` is called on a basis carrying the source conventions -/
-def wfnScalesFromSource : Bool := true
+def wfnScalesFromSource : Bool := false
 /-- wfx.py: same -/
-def wfxScalesFromSource : Bool := true
+def wfxScalesFromSource : Bool := false
 /-- molden.py: coefficient rows re-ordered like the `[GTO]` shells sorted by centre -/
-def moldenRowsFollowSort : Bool := false
+def moldenRowsFollowSort : Bool := true
 /-- molekel.py: beta irreps sliced with `norbb` -/
 def mklBetaIrrepsUseNorbb : Bool := false
 /-- molekel.py: shells written sorted by centre with one `$$` per centre passed, rows following -/
-def mklSeparatorsPerCentre : Bool := false
+def mklSeparatorsPerCentre : Bool := true
 /-- fchk.py: density matrices converted to the FCHK conventions -/
-def fchkDensitiesConverted : Bool := false
+def fchkDensitiesConverted : Bool := true
 end Iodata.Gen.Wf
